@@ -236,5 +236,19 @@ def from_float_requests(rng, tier):
         reqs.append("C08 i.from_f64 %x" % b)
     return reqs
 
+def trait_form_requests(rng, tier):
+    """api-coverage block: the trait impls `ToBigUint for BigInt`, `ToBigUint for BigUint`, `ToBigInt for BigInt`
+    called trait-qualified (ops `*_t`): zero, ±1, digit boundaries, multi-digit values of both signs"""
+    reqs = []
+    vs = [0, 1, 2, MAX - 1, MAX, B, B + 1, B * B - 1, B * B, (1 << 127) - 1, 1 << 127, 1 << 128]
+    vs += [big(rng, n) for n in (1, 2, 3, 5, 9)] + ([big(rng, n) for n in (17, 40, 64)] if tier == "thorough" else [])
+    for v in vs:
+        for s in (v, -v):
+            reqs.append("C08 i.to_biguint_t %s" % wi(s))
+            reqs.append("C08 i.to_bigint_t %s" % wi(s))
+        reqs.append("C08 u.to_biguint_t %s" % wu(v))
+    return reqs
+
 def gen(rng, tier):
-    return int_requests(rng, tier) + to_float_requests(rng, tier) + from_float_requests(rng, tier)
+    return (int_requests(rng, tier) + to_float_requests(rng, tier) + from_float_requests(rng, tier)
+            + trait_form_requests(rng, tier))
